@@ -53,7 +53,7 @@ pub open spec fn class_of(t: TokenType) -> Option<u32> {
     }
 }
 pub open spec fn token_ok(token: Token, prev: Position, text: Seq<char>) -> bool {
-    pos_le(prev, pos_of(token.range.start, text)) && token.range.start <= token.range.end && utf16_units(token.range.start, token.range.end, text) <= u32::MAX
+    text_fits(text) && pos_le(prev, pos_of(token.range.start, text)) && token.range.start <= token.range.end && utf16_units(token.range.start, token.range.end, text) <= u32::MAX
 }
 /// the emitted token coincides with the lexical token: position, UTF-16 length
 pub open spec fn coincides(out: SemanticToken, token: Token, prev: Position, text: Seq<char>) -> bool {
